@@ -204,7 +204,8 @@ class Pipe:
         for i in (0, 1):
             self.buf[i] += self.ends[i].take()
 
-    def step(self, direction, n=None):
+    def step(self, direction, n=None, settle=True):
+        """deliver one read; settle=False leaves the event loop un-run, so that the next read arrives in the same loop turn"""
         self.pump()
         b = self.buf[direction]
         if not b:
@@ -215,8 +216,9 @@ class Pipe:
         del b[:n]
         self.delivered[direction] += chunk
         self.reads[direction] += 1
-        self.ends[1 - direction].feed(chunk)
-        self.d.settle()
+        self.ends[1 - direction].feed(chunk, settle)
+        if settle:
+            self.d.settle()
         self.pump()
         return n
 
@@ -236,12 +238,16 @@ class Pipe:
             if k > limit:
                 raise HarnessError("pipe does not drain")
 
-    def run_bytewise(self, chunk=1):
+    def run_bytewise(self, chunk=1, burst=1):
+        """`burst` reads are delivered per event-loop turn (asyncio protocols may get several data_received calls before the loop runs
+        their callbacks; for Twisted there is no difference)"""
         while True:
             self.d.settle()
             self.pump()
             if not self.buf[0] and not self.buf[1]:
                 break
             for i in (0, 1):
-                if self.buf[i]:
-                    self.step(i, chunk)
+                for k in range(burst):
+                    if self.buf[i]:
+                        self.step(i, chunk, settle=(k == burst - 1))
+                self.d.settle()
